@@ -1171,3 +1171,55 @@ func FuncFullName(fn *ssa.Function) string {
 	}
 	return ""
 }
+
+// LoopEarlyExit describes a CFG edge that leaves a natural loop from a block
+// other than the loop header (a break, a return, a goto or a continue of an
+// enclosing loop).
+type LoopEarlyExit struct {
+	Header, From, To *ssa.BasicBlock
+}
+
+// LoopEarlyExits returns the early exits of every natural loop of fn and the
+// number of natural loops found.
+func LoopEarlyExits(fn *ssa.Function) (exits []LoopEarlyExit, nloops int) {
+	heads := map[*ssa.BasicBlock]map[*ssa.BasicBlock]bool{}
+	for _, t := range fn.Blocks {
+		for _, h := range t.Succs {
+			if h.Dominates(t) || h == t {
+				body := heads[h]
+				if body == nil {
+					body = map[*ssa.BasicBlock]bool{h: true}
+					heads[h] = body
+				}
+				stack := []*ssa.BasicBlock{t}
+				for len(stack) > 0 {
+					x := stack[len(stack)-1]
+					stack = stack[:len(stack)-1]
+					if body[x] {
+						continue
+					}
+					body[x] = true
+					stack = append(stack, x.Preds...)
+				}
+			}
+		}
+	}
+	for _, b := range fn.Blocks {
+		body, ok := heads[b]
+		if !ok {
+			continue
+		}
+		nloops++
+		for _, n := range fn.Blocks {
+			if !body[n] || n == b {
+				continue
+			}
+			for _, s := range n.Succs {
+				if !body[s] {
+					exits = append(exits, LoopEarlyExit{Header: b, From: n, To: s})
+				}
+			}
+		}
+	}
+	return exits, nloops
+}
